@@ -18,7 +18,7 @@ fn packet(c: u8, i: u8, body: &[u8]) -> Vec<u8> {
 
 pub fn run(ctx: &Ctx) -> i32 {
     let mut report = ctx.report("C15", "exploration");
-    report.rule = "17 reply enums x all 65536 (class,instruction) pairs x bodies {empty, a canonical body of every variant of the enum (so: valid for the target and valid for another variant), a whole packet of every variant as body (with and without an acknowledgement in front), canonical bodies of types outside the enum, random bytes, truncated}, each body inside a reply set also behind the extended length form FF lo hi; for pairs inside the reply set additionally many canonical and byte-mutated bodies. Oracle: independent reply-set table + the variant type's own decoder on the same bytes. Enumeration is duplicate-free by construction (enum, control field, body index); non-trivial = every case (each has a definite expected outcome).".into();
+    report.rule = "17 reply enums x all 65536 (class,instruction) pairs x bodies {empty, a canonical body of every variant of the enum (so: valid for the target and valid for another variant), a whole packet of every variant as body (with and without an acknowledgement in front), canonical bodies of types outside the enum, random bytes, truncated}, each body inside a reply set also behind the extended length form FF lo hi; for pairs inside the reply set additionally many canonical and byte-mutated bodies. Oracle: independent reply-set table + the variant type's own decoder on the same bytes. Sequence level (the dispatch must not depend on what was received before): each of the 17 Sequence streams, after the acknowledgement and after every prefix of valid non-final replies of length <= 1 (thorough: <= 2), is sent a bare packet of every one of the 65536 control fields outside its reply set - it must yield exactly one error for it (after the prefix's items), end, and write nothing more (no acknowledgement: the packet was not mistaken for a reply). Enumeration is duplicate-free by construction (enum, control field, body index / stream, prefix, control field); non-trivial = every case (each has a definite expected outcome).".into();
     report.exhaustive = Some(true);
     report.assumptions = vec![
         "reply sets of DESIGN Appendix B (refcodec::tables) are the specification".into(),
@@ -133,6 +133,7 @@ pub fn run(ctx: &Ctx) -> i32 {
             }
         }
     });
+    sequence_level(ctx, &mut report, &schema);
     report.extra.insert("enums".into(), json!(REPLY_ENUMS.len()));
     report.extra.insert("control_fields_per_enum".into(), json!(65536));
     report.finish()
@@ -204,4 +205,84 @@ fn check(r: &mut refcodec::evidence::Report, enum_name: &str, target: Option<&(&
             }
         }
     }
+}
+
+
+/// State-dependent dispatch: whatever replies a stream has already received, a packet whose control field is outside the
+/// reply set is an error there and then - never acknowledged, skipped or taken for a reply.
+fn sequence_level(ctx: &Ctx, report: &mut refcodec::evidence::Report, schema: &refcodec::layout::Schema) {
+    use crate::script::{Entry, Ev, Script, Term};
+    use crate::seq::{command_for, prefixes_up_to, run_stream, variant_key, Pools, ACK};
+    use refcodec::tables::{reply_enum, STREAMS};
+    let pools = Pools::build(schema, ctx.seed, 4);
+    let depth = ctx.by(1usize, 2usize);
+    let threads = ctx.threads;
+    let seed = ctx.seed;
+    // work items: (stream, prefix)
+    let mut items: Vec<(&'static refcodec::tables::StreamDef, Vec<&'static str>)> = vec![];
+    for sd in STREAMS.iter().filter(|s| s.name != "feig::WriteFile") {
+        for p in prefixes_up_to(sd, depth) {
+            items.push((sd, p));
+        }
+    }
+    report.extra.insert("sequence_level_stream_states".into(), json!(items.len()));
+    sharded(report, threads, |shard, r| {
+        let mut rng = Rng::derive(seed, 0xC15_5E0 + shard as u64);
+        for (sd, prefix) in items.iter() {
+            let e = reply_enum(sd.replies);
+            let in_set: Vec<(u8, u8)> = e.variants.iter().filter_map(|v| schema.get(v.1).cf).collect();
+            let cmd = command_for(schema, &pools, &mut rng, sd);
+            let replies: Vec<Vec<u8>> = prefix.iter().map(|v| pools.pick(&mut rng, variant_key(sd, v)).0.clone()).collect();
+            // script: ack after the command; reply k after the command and k acknowledgements
+            let mut entries = vec![Entry { bytes: ACK.to_vec(), gate: cmd.len() }];
+            for (k, b) in replies.iter().enumerate() {
+                entries.push(Entry { bytes: b.clone(), gate: cmd.len() + 3 * k });
+            }
+            let gate_x = cmd.len() + 3 * replies.len();
+            let expected_written = gate_x;
+            let mut cf = shard as u32;
+            while cf < 65536 {
+                let (c, i) = ((cf >> 8) as u8, cf as u8);
+                cf += threads as u32;
+                if in_set.contains(&(c, i)) {
+                    continue;
+                }
+                let mut es = entries.clone();
+                es.push(Entry { bytes: vec![c, i, 0], gate: gate_x });
+                let term = Term::new(Script::new(es));
+                term.0.lock().unwrap().record_payloads = false;
+                r.case_enumerated(true);
+                r.count("sequence_level_cases", 1);
+                let res = run_stream(sd.name, &cmd, &term, None);
+                let st = term.0.lock().unwrap();
+                let oks = st.log.iter().filter(|e| matches!(e, Ev::Yield { ok: true, .. })).count();
+                let errs = st.log.iter().filter(|e| matches!(e, Ev::Yield { ok: false, .. })).count();
+                let ended = matches!(st.log.last(), Some(Ev::End));
+                let written = st.written;
+                let case = || json!({"kind": "sequence-level", "stream": sd.name, "command": hex(&cmd[..cmd.len().min(40)]), "valid_replies_before": prefix, "then_packet": hex(&[c, i, 0]), "yielded_ok": oks, "yielded_err": errs, "ended": ended, "bytes_written": written, "bytes_expected_written": expected_written});
+                match res {
+                    Err(p) if p.starts_with("PANIC") => {
+                        r.violation(&format!("{} stream {}", sd.name, panic_signature(&p)), &format!("after {prefix:?} the packet {:02x}{:02x}00 made the stream panic: {p}", c, i), case());
+                        continue;
+                    }
+                    Err(p) => {
+                        r.inconclusive(&format!("C15 sequence level: {p}"));
+                        return;
+                    }
+                    Ok(false) => {
+                        r.inconclusive("harness poll guard fired in C15");
+                        return;
+                    }
+                    Ok(true) => {}
+                }
+                if written > expected_written {
+                    r.violation(&format!("{} stream: a packet outside the reply set is answered (taken for a reply)", sd.name), &format!("after {prefix:?} the packet {:02x}{:02x}00 is outside the reply set of {}, but the client wrote {} more bytes after it", c, i, sd.replies, written - expected_written), case());
+                } else if errs != 1 || !ended || oks != prefix.len() {
+                    r.violation(&format!("{} stream: a packet outside the reply set does not end the stream with exactly one error", sd.name), &format!("after {prefix:?} the packet {:02x}{:02x}00: {oks} items, {errs} errors, ended={ended}", c, i), case());
+                } else if r.wants_sample() && cf % 4099 < threads as u32 {
+                    r.sample(json!({"stream": sd.name, "valid_replies_before": prefix, "then_packet": hex(&[c, i, 0]), "observed": format!("{oks} items, 1 error, end; nothing written after it")}));
+                }
+            }
+        }
+    });
 }
